@@ -301,6 +301,91 @@ theorem C06 (c : Cfg) (hpos : 1 ≤ c.initialHeight) (acts : List ActR) :
   · exact pendingBlocks_exists (fun k k1 k2 => by
       obtain ⟨b, hb, _⟩ := r.pinv.chain k (by omega) k2; exact ⟨b, hb⟩)
 
+/-! ## 5. the submitted blobs -/
+
+theorem keyBytes_ne_nil (k : KeyId) : keyBytes k ≠ [] := by simp [keyBytes]
+
+/-- the header blob decodes (wire model of `SignedHeader.UnmarshalBinary`, C12) to the stored signed header -/
+theorem hdrBlob_decodes (b : Block) (hw : (wireHeader b).WF) (hk : b.sh.signer.key ≠ none) :
+    SignedHeader.decode (fun _ => true) (hdrBlob b) = some (wireHeader b) := by
+  have h := SignedHeader.decode_encode (fun _ => true) hw (fun _ => rfl)
+  have hc : (wireHeader b).canon' = wireHeader b := by
+    cases hkey : b.sh.signer.key with
+    | none => exact absurd hkey hk
+    | some k =>
+      simp [SignedHeader.canon', Signer.canon, wireHeader, wireSigner, hkey, keyBytes_ne_nil]
+  rw [hc] at h; exact h
+
+/-- the data blob decodes (wire model of `SignedData.UnmarshalBinary`) to the stored data with its signature and signer -/
+theorem dataBlob_decodes (b : Block) (hw : (wireData b).WF) (hk : b.sh.signer.key ≠ none) :
+    SignedData.decode (fun _ => true) (dataBlob b) = some (wireData b) := by
+  have h := SignedData.decode_encode (fun _ => true) hw (fun _ => rfl)
+  have hc : (wireData b).canon' = wireData b := by
+    cases hkey : b.sh.signer.key with
+    | none => exact absurd hkey hk
+    | some k =>
+      simp [SignedData.canon', Signer.canon, wireData, wireSigner, hkey, keyBytes_ne_nil]
+  rw [hc] at h; exact h
+
+/-- **Every blob the node ever handed to the DA layer is the committed item, signed by the proposer** — every history
+(restarts and crashes at write granularity included), every initial height ≥ 1.  The byte view `daBytes` of the DA double
+is aligned with the summary `daBlobs` used everywhere else (same DA heights, kinds and block heights, in the same order),
+and every entry `(dh, kind, h, bytes)` belongs to a committed block `b` (stored at `initialHeight ≤ k ≤ height`):
+
+* header entries: `h = b.sh.hdr.height` (`= k`), `bytes = SignedHeader.encode {header := the stored header, signature := the
+  stored signature, signer := the stored signer}`, the stored signature **is the signature by the proposer key over the
+  header payload** and the signer is the genesis proposer with that key; whenever the sizes fit the wire format
+  (`WF`: lengths and integers below 2^64, as in the Go types) the blob **decodes to exactly that signed header**;
+* data entries: the block has transactions, `h` is the height in its data metadata (`= k`), `bytes = SignedData.encode
+  {data := the stored data, signature := signature by the proposer key over `Data.encode`, signer := genesis proposer with
+  that key}`, and it decodes to exactly that.
+
+Signatures and keys are symbolic (`sigBytes (Sig.by key payload)`, `keyBytes key`): that the real blob carries a valid
+Ed25519 signature by the real key over the real bytes stays with the Go monitors (`C06/blob/*`); that `encode` is the Go
+`MarshalBinary` for every typed value is C12. -/
+theorem C06_blobs_are_the_committed_items (c : Cfg) (hpos : 1 ≤ c.initialHeight) (acts : List ActR) :
+    let a := (runR c (freshC c) acts).a
+    a.daBlobs = a.daBytes.map bproj ∧
+    ∀ e ∈ a.daBytes, ∃ k b, c.initialHeight ≤ k ∧ k ≤ a.n.store.height ∧ a.n.store.getBlock k = some b ∧
+      b.sh.hdr.height = k ∧ dataHeight b = k ∧
+      b.sh.sig = Sig.by c.key (payload b.sh.hdr) ∧ b.sh.signer = mySigner c ∧
+      ((e.2.1 = false ∧ e.2.2.1 = k ∧ e.2.2.2 = (wireHeader b).encode ∧
+          (wireHeader b).signature = sigBytes (Sig.by c.key (payload b.sh.hdr)) ∧
+          (wireHeader b).signer = { address := c.proposerAddr, pubKey := keyBytes c.key } ∧
+          ((wireHeader b).WF → SignedHeader.decode (fun _ => true) e.2.2.2 = some (wireHeader b))) ∨
+       (e.2.1 = true ∧ e.2.2.1 = k ∧ b.data.txs ≠ [] ∧ e.2.2.2 = (wireData b).encode ∧
+          (wireData b).signature = sigBytes (Sig.by c.key b.data.encode) ∧
+          (wireData b).signer = { address := c.proposerAddr, pubKey := keyBytes c.key } ∧
+          ((wireData b).WF → SignedData.decode (fun _ => true) e.2.2.2 = some (wireData b)))) := by
+  intro a
+  have r : R c a := ((CI_fresh c hpos).run acts).r
+  refine ⟨r.bytes.aligned, fun e he => ?_⟩
+  obtain ⟨k, b, k0, k1, hb, hcase⟩ := r.bytes.entries e he
+  obtain ⟨b', hb', hl⟩ := r.pinv.chain k k0 k1
+  rw [hb] at hb'
+  have : b = b' := by simpa using hb'
+  subst this
+  obtain ⟨b'', hb'', hdh⟩ := r.mh k k0 k1
+  rw [hb] at hb''
+  have : b = b'' := by simpa using hb''
+  subst this
+  have hkey : b.sh.signer.key = some c.key := by rw [hl.signer]; rfl
+  have hkne : b.sh.signer.key ≠ none := by rw [hkey]; simp
+  have hsg : wireSigner b.sh.signer = { address := c.proposerAddr, pubKey := keyBytes c.key } := by
+    rw [hl.signer]; rfl
+  refine ⟨k, b, k0, k1, hb, hl.height, hdh, hl.sig, hl.signer, ?_⟩
+  rcases hcase with ⟨q1, q2, q3⟩ | ⟨q1, q2, q3, q4⟩
+  · left
+    refine ⟨q1, by rw [q2]; exact hl.height, q3, ?_, hsg, fun hw => by rw [q3]; exact hdrBlob_decodes b hw hkne⟩
+    show sigBytes b.sh.sig = _
+    rw [hl.sig]
+  · right
+    refine ⟨q1, by rw [q2]; exact hdh, q3, q4, ?_, hsg, fun hw => by rw [q4]; exact dataBlob_decodes b hw hkne⟩
+    show sigBytes (match b.sh.signer.key with
+      | some k => Sig.by k b.data.encode
+      | none => Sig.none) = _
+    rw [hkey]
+
 /-- **a restart of a reachable node never fails** (`NewManager` finds parsable watermarks, a state not below the
 genesis, …), whether after a clean stop or a crash between two actions; it never raises a watermark above
 `max(old, initialHeight − 1)` and keeps the DA layer and the chain height -/
@@ -440,6 +525,24 @@ example : (List.range 7).map (fun k =>
         (.act (.produce (.batch [[5]] 200 []) .ok))) (.crash k)
       (s.a.n.store.height, s.a.n.hdrWm, s.a.n.dataWm)) =
       [(1, 1, 1), (1, 1, 1), (1, 1, 1), (1, 1, 1), (2, 1, 1), (2, 1, 1), (2, 1, 1)] := by
+  decide +kernel
+
+/-- the blobs of a header tick and a data tick on the three-block chain (four blobs: headers 1, 2, 3 and the data of
+block 2), decoded by the wire model: each decodes, carries the height of its entry, the proposer's key and the proposer's
+signature over the header payload / the data bytes -/
+example : let a := (dataIter (headersIter xNode []).1 []).1
+    a.daBytes.length = 4 ∧ a.daBlobs = a.daBytes.map bproj ∧
+    a.daBytes.all (fun e =>
+      if e.2.1 then
+        match SignedData.decode (fun _ => true) e.2.2.2 with
+        | some sd => (sd.data.metadata.map (·.height)) == some e.2.2.1 && sd.signer.pubKey == keyBytes 1 &&
+            sd.signature == sigBytes (Sig.by 1 sd.data.encode)
+        | none => false
+      else
+        match SignedHeader.decode (fun _ => true) e.2.2.2 with
+        | some sh => sh.header.height == e.2.2.1 && sh.signer.pubKey == keyBytes 1 &&
+            sh.signature == sigBytes (Sig.by 1 sh.header.encode)
+        | none => false) = true := by
   decide +kernel
 
 end Spec.C06
